@@ -30,7 +30,7 @@ CHECKS = {
     "C14": {"level": E, "units": [go("TestC14", 3200, 60000)]},
     "C13": {"level": E, "units": [go("TestC13", 1200, 20000), go("TestC13Unit", 640, 6000, netns=False), go("TestC13Flood", 16, 160, max_per_proc=4)]},
     "C07": {"level": E, "hazards_of": ["C03"], "units": [go("TestC07Gen", 50000, 2000000, netns=False), go("TestC07Conc", 600, 20000, race=True, netns=False, confirm=False), go("TestC07Wire", 2000, 30000)]},
-    "C05": {"level": E, "units": [go("TestC05", 1600, 30000)]},
+    "C05": {"level": E, "units": [go("TestC05", 1600, 30000, confirm_tries=6)]},
     "C04": {"level": E, "agent_binary": True, "units": [go("TestC04", 4000, 120000), go("TestC04Restart", 192, 6000)]},
     "C16": {"level": E, "gen_binary": True, "units": [go("TestC16Constants", 1, 1, netns=False, shards={"quick": 1, "thorough": 1}), go("TestC16Gen", 960, 6000, netns=False), go("TestC16", 5600, 120000, fact=r"do(es)? not conform to the P4Info|violate the P4Info")]},
     "C15": {"level": F, "units": [go("TestC15Enum", 16, 16), go("TestC15Multi", 2400, 100000)]},
